@@ -517,10 +517,10 @@ for ch in ("A", "W"):
     ob(id="ComposeSizes.%s.H" % ch, props=["C17", "C19"], route="H", harness="c17_sizes.c", char=ch,
        group="uriComposeQueryEngine via uriComposeQueryCharsRequiredEx / uriComposeQueryEx with symbolic string lengths: chars required == worst-case sum, sufficient, written == length + 1, no write beyond maxChars, sizes beyond INT_MAX refused, no int overflow",
        replace_bodies=[(["uriEscapeEx" + ch] + (["wcslen"] if ch == "W" else []), "compose_callees.c")],
-       defines=(by_tier({"VI": 3, "VD": 24}, {"VI": 4, "VD": 40}) if ch == "A" else by_tier({"VI": 3, "VD": 8}, {"VI": 3, "VD": 24})), checks=NOPTROVF,
+       defines=(by_tier({"VI": 3, "VD": 24}, {"VI": 4, "VD": 24}) if ch == "A" else by_tier({"VI": 3, "VD": 8}, {"VI": 3, "VD": 8})), checks=NOPTROVF,
        unwindset=by_tier({"uriComposeQueryEngine%s.*" % ch: 4, "cs_find.*": 9}, {"uriComposeQueryEngine%s.*" % ch: 5, "cs_find.*": 9}),
        level="B", bounds=by_tier("<=3 items; string lengths symbolic up to 2^40 (measuring: no further bound; writing: destination blocks of 1..24 characters (W: 1..8), exact size)",
-                                 "<=4 items; string lengths symbolic up to 2^40; writing: destination blocks of 1..40 characters"),
+                                 "<=4 items (W: 3); string lengths symbolic up to 2^40; writing: destination blocks of 1..24 characters (W: 1..8)"),
        functions=["uriComposeQueryEngine" + ch, "uriComposeQueryCharsRequiredEx" + ch, "uriComposeQueryEx" + ch],
        inlined=["uriComposeQueryEngine" + ch], stubs=["uriEscapeEx (contract stub stubs/compose_callees.c; its clauses are those of EscapeEx.A.N)", "strlen/wcslen (table stub: assumed libc contract)"],
        timeout_s=by_tier(600, 3600), mem_gb=10)
